@@ -420,14 +420,28 @@ def _with_initial(draw, kw):
     return kw
 
 
+def _zero_d_reduction(draw, og):
+    """a single (0-d) polynomial: numpy's folds accept axis None, 0, -1 and () for it"""
+    a = og.array(draw, shape=())
+    kw = {}
+    ax = draw(st.sampled_from([None, 0, 0, -1, {"$tuple": []}]))
+    if ax is not None or draw(st.booleans()):
+        kw["axis"] = ax
+    return {"args": [P(a)], "kw": kw}
+
+
 @recipe("sum", "reduction", method="sum", reduce="add")
 def _sum(draw, og):
+    if draw(st.integers(0, 9)) == 0:
+        return _zero_d_reduction(draw, og)
     a = og.array(draw, min_ndim=1)
     return {"args": [P(a)], "kw": _with_where(draw, _with_initial(draw, _with_dtype(draw, _reduce_kw(draw, a), a)), a, og, True)}
 
 
 @recipe("prod", "reduction", method="prod", reduce="multiply", cost=3)
 def _prod(draw, og):
+    if draw(st.integers(0, 9)) == 0:
+        return _zero_d_reduction(draw, og)
     a = og.array(draw, min_ndim=1)
     return {"args": [P(a)], "kw": _with_where(draw, _with_initial(draw, _with_dtype(draw, _reduce_kw(draw, a), a)), a, og, True)}
 
